@@ -19,7 +19,7 @@
 #include <time.h>
 
 enum { F_WRAPPED_ACQ, F_RESET_ACQ, F_UPTO_PARTIAL, F_FAIL_FRAGMENTED, F_FULL_AFTER_DRAIN, F_EXACT_FULL, F_TAIL_SPACE, F_OVERSIZE_REFUSED,
-       F_RELEASE_DURING_ACQUIRE, F_ACQUIRER_WAITED, F_RELEASER_WAITED, F_EMPTY_SEEN, F_UPTO_HUGE };
+       F_RELEASE_DURING_ACQUIRE, F_ACQUIRER_WAITED, F_RELEASER_WAITED, F_EMPTY_SEEN, F_UPTO_HUGE, F_HUGE_RING };
 
 static const size_t RING_SIZES[] = {1, 2, 3, 7, 16, 64, 100, 255, 4096};
 #define N_RING_SIZES (sizeof(RING_SIZES) / sizeof(RING_SIZES[0]))
@@ -57,6 +57,129 @@ struct outbuf {
     size_t cap;
     uint64_t index;
 };
+
+/* ------------------------------------------------------------------ rings of 4 GiB and more
+ * The storage comes from an allocator that reserves address space only (mmap, MAP_NORESERVE) and records what the ring
+ * asked for: every buffer the ring hands out must lie inside the block it obtained, i.e. the block must be as large as
+ * the ring. Only a handful of bytes at the ends of each buffer are touched. */
+#include <sys/mman.h>
+static struct {
+    void *addr;
+    size_t len;
+    int acquires, releases;
+} s_big;
+
+static void *big_acquire(struct aws_allocator *a, size_t size) {
+    (void)a;
+    if (s_big.addr) {
+        return NULL; /* one block per ring */
+    }
+    void *p = mmap(NULL, size, PROT_READ | PROT_WRITE, MAP_PRIVATE | MAP_ANONYMOUS | MAP_NORESERVE, -1, 0);
+    if (p == MAP_FAILED) {
+        return NULL;
+    }
+    s_big.addr = p;
+    s_big.len = size;
+    ++s_big.acquires;
+    return p;
+}
+
+static void big_release(struct aws_allocator *a, void *p) {
+    (void)a;
+    if (p && p == s_big.addr) {
+        munmap(p, s_big.len);
+        s_big.addr = NULL;
+        ++s_big.releases;
+    }
+}
+
+static struct aws_allocator s_big_alloc = {.mem_acquire = big_acquire, .mem_release = big_release, .mem_realloc = NULL, .mem_calloc = NULL, .impl = NULL};
+
+static void huge_case(void) {
+    struct mon_rng *r = &mon_case_rng;
+    static const size_t SIZES[] = {((size_t)1 << 32) + 40, ((size_t)1 << 32) + 4097, ((size_t)3 << 31) + 102400, ((size_t)1 << 32), ((size_t)1 << 33) + 1,
+                                   ((size_t)1 << 32) - 1};
+    size_t ring = SIZES[mon_below(r, sizeof(SIZES) / sizeof(SIZES[0]))];
+    mon_fp(0xB16);
+    mon_fp(ring);
+    memset(&s_big, 0, sizeof(s_big));
+    /* probe: can this machine reserve that much address space at all? */
+    void *probe = mmap(NULL, ring + 8, PROT_READ | PROT_WRITE, MAP_PRIVATE | MAP_ANONYMOUS | MAP_NORESERVE, -1, 0);
+    if (probe == MAP_FAILED) {
+        mon_count("huge_ring_skipped_no_address_space", 1);
+        return;
+    }
+    munmap(probe, ring + 8);
+    struct aws_ring_buffer rb;
+    if (aws_ring_buffer_init(&rb, &s_big_alloc, ring)) {
+        mon_violation("C15:init", "aws_ring_buffer_init(%zu) failed although the address space is available", ring);
+        return;
+    }
+    if (s_big.len < ring) {
+        mon_violation("C15:huge:storage-smaller-than-ring", "ring of %zu bytes obtained a block of only %zu bytes from its allocator", ring, s_big.len);
+    }
+    if ((size_t)(rb.allocation_end - rb.allocation) != ring) {
+        mon_violation("C15:huge:size", "ring of %zu bytes: allocation_end - allocation = %zu", ring, (size_t)(rb.allocation_end - rb.allocation));
+    }
+    struct aws_byte_buf held[8];
+    int nheld = 0;
+    uint64_t v0 = mon_violations();
+    for (int k = 0; k < 6 && mon_violations() == v0; ++k) {
+        size_t req;
+        switch (mon_below(r, 5)) {
+            case 0: req = 1 + (size_t)mon_below(r, 4096); break;
+            case 1: req = ((size_t)1 << 31) + (size_t)mon_below(r, 4096); break;
+            case 2: req = ring / 2; break;
+            case 3: req = ring - 1 - (size_t)mon_below(r, 64); break;
+            default: req = ((size_t)1 << 32) + (size_t)mon_below(r, 16); break;
+        }
+        struct aws_byte_buf dest;
+        AWS_ZERO_STRUCT(dest);
+        bool upto = mon_chance(r, 1, 3);
+        int rc = upto ? aws_ring_buffer_acquire_up_to(&rb, 1, req, &dest) : aws_ring_buffer_acquire(&rb, req, &dest);
+        if (rc) {
+            if (nheld == 0 && req <= ring) {
+                mon_violation("C15:seq:refused-when-empty", "ring=%zu, nothing outstanding: acquire(%zu) failed", ring, req);
+            }
+            /* release the oldest and go on */
+            if (nheld) {
+                aws_ring_buffer_release(&rb, &held[0]);
+                memmove(&held[0], &held[1], sizeof(held[0]) * (size_t)(--nheld));
+            }
+            continue;
+        }
+        uint8_t *lo = (uint8_t *)s_big.addr, *hi = lo + s_big.len;
+        if (dest.buffer < lo || dest.capacity > s_big.len || dest.buffer + dest.capacity > hi) {
+            mon_violation("C15:huge:outside-storage", "ring=%zu (block of %zu bytes): buffer [%td,+%zu) lies outside the block the ring obtained", ring, s_big.len,
+                          dest.buffer - lo, dest.capacity);
+            break;
+        }
+        if ((!upto && dest.capacity != req) || (upto && (dest.capacity < 1 || dest.capacity > req))) {
+            mon_violation("C15:seq:size", "ring=%zu: %s(%zu) returned capacity %zu", ring, upto ? "acquire_up_to" : "acquire", req, dest.capacity);
+        }
+        for (int j = 0; j < nheld; ++j) {
+            if (dest.buffer < held[j].buffer + held[j].capacity && held[j].buffer < dest.buffer + dest.capacity) {
+                mon_violation("C15:seq:overlap", "ring=%zu: new buffer [%td,+%zu) overlaps an unreleased one [%td,+%zu)", ring, dest.buffer - lo, dest.capacity,
+                              held[j].buffer - lo, held[j].capacity);
+            }
+        }
+        dest.buffer[0] = 0x5A;
+        dest.buffer[dest.capacity - 1] = 0xA5;
+        if (nheld < 8) {
+            held[nheld++] = dest;
+        }
+        if (mon_chance(r, 1, 2) && nheld) {
+            aws_ring_buffer_release(&rb, &held[0]);
+            memmove(&held[0], &held[1], sizeof(held[0]) * (size_t)(--nheld));
+        }
+    }
+    aws_ring_buffer_clean_up(&rb);
+    if (s_big.acquires != 1 || s_big.releases != 1) {
+        mon_violation("C15:huge:allocator-balance", "ring of %zu bytes: %d blocks obtained, %d given back", ring, s_big.acquires, s_big.releases);
+    }
+    mon_flag(F_HUGE_RING);
+    mon_count("huge_rings_4GiB_and_more", 1);
+}
 
 static void seq_case(void) {
     struct mon_rng *r = &mon_case_rng;
@@ -501,7 +624,7 @@ int main(int argc, char **argv) {
     static const char *names[] = {"acquire_wrapped_to_start", "acquire_with_nothing_outstanding", "up_to_partial_grant", "failure_while_fragmented",
                                   "full_capacity_after_drain", "exact_full_ring_acquired", "space_before_tail_used", "oversize_refused",
                                   "release_completed_during_acquire", "acquirer_waited_for_space", "releaser_waited_for_data", "ring_drained_mid_history",
-                                  "up_to_request_far_beyond_ring_incl_SIZE_MAX"};
+                                  "up_to_request_far_beyond_ring_incl_SIZE_MAX", "ring_of_4GiB_or_more"};
     for (int i = 0; i < (int)(sizeof(names) / sizeof(names[0])); ++i) {
         mon_flag_name(i, names[i]);
     }
@@ -512,7 +635,11 @@ int main(int argc, char **argv) {
         if (conc) {
             conc_case(c);
         } else {
-            seq_case();
+            if (c % 64 == 63) {
+                huge_case();
+            } else {
+                seq_case();
+            }
         }
         mon_case_end(mon_flag_count() >= 3);
     }
